@@ -491,7 +491,7 @@ RULES = [r1, r1b, r2, r3, r3b, r3c, r4, r5, r6]
 EXPLANATION = ("C04 (forged proofs never change a replica): decides the gate chain as dominance facts — fork and commitable gates and a ?-checked "
                "verify_proof dominate every storage/oplog/bitfield/tree/header/event effect of verify_and_apply_proof and the applied changeset is the verified one (R1); "
                "the trust anchor is self.key_pair.public (R2); an un-upgraded root is compared by hash with the stored node or turned into a read instruction, and "
-               "the changeset is released only with no instruction pending (R3); every Ok of verify_upgrade/verify_and_set_signature is dominated by a ?-checked "
+               "the changeset is released only with no instruction pending, and NodeQueue::shift — the only place that ties a proof node to a tree position — hands a node out only under node.index == index (R3); every Ok of verify_upgrade/verify_and_set_signature is dominated by a ?-checked "
                "signature verification over signable(hash(roots), length, fork) with no root appended afterwards (R4); crypto::verify returns Ok only on "
                "verify(..).is_ok() and Err on a missing signature (R5); verify_tree recomputes the leaf from the received value and every parent from the "
                "running root and the shifted sibling (R6).")
